@@ -1,5 +1,5 @@
 """Shared anchors and helpers for the rules about the push decoder (C02, C08, C14, C16, C17)."""
-from ..engine import AnchorMissing, field_index
+from ..engine import AnchorMissing, TYPESTATE, field_index
 from ..lin import Lin
 from ..vra.state import Infeasible
 from ..vra.interp import Unsupported
@@ -165,6 +165,18 @@ def err_payload(ip, st, ret):
     e = ret.pay[1][0]
     c = st.const_of(e.disc)
     return e.pay.get(c, ())
+
+
+def zc_of(an, obj):
+    """the withheld-zero counter of a decoder value (looking through a single-field wrapper type around the integer)"""
+    v = obj.elems[an.i_zc]
+    d = 0
+    while isinstance(v, VAgg) and len(v.elems) == 1 and d < 3:
+        v = v.elems[0]
+        d += 1
+    if not isinstance(v, VInt):
+        raise AnchorMissing("the withheld-zero counter is not an integer (%r)" % (v,))
+    return v
 
 
 def cases(A, body, ghost=None, tname=NOD):
@@ -357,7 +369,7 @@ def frame_analysis(A, an):
         g["flush_zc"] = g["n_pushed_eq"]
         g["dfed_at_final"] = repr(st.ghost.get("fa-dfed-at-final"))
         g["dfed_at_final_is_2"] = st.ghost.get("fa-dfed-at-final") == Lin.const(2)
-        g["zc_after"] = 0 if st.prove_eq0(obj.elems[an.i_zc].lin) else st.const_of(obj.elems[an.i_zc].lin)
+        g["zc_after"] = 0 if st.prove_eq0(zc_of(an, obj).lin) else st.const_of(zc_of(an, obj).lin)
         g["no_unproved_checks"] = not st.ghost.get("unproved-asserts")
         g["unproved"] = st.ghost.get("unproved-asserts")
         ip_.observe(g)
@@ -389,7 +401,7 @@ def frame_analysis(A, an):
             st.ghost["dec-self"] = root
             st.ghost["dec-part"] = key
             st.ghost["fa-on"] = True
-            st.ghost["dec-zc0"] = obj0.elems[an.i_zc].lin
+            st.ghost["dec-zc0"] = zc_of(an, obj0).lin
             starts = [st]
             if key == an.v_payload:
                 step = obj0.elems[an.i_state].pay[an.v_payload][an.i_step].lin
@@ -424,6 +436,52 @@ def frame_analysis(A, an):
     return outs, gates
 
 
+def pending_of(A, an, st, obj):
+    """Observer for 'the number of bytes consumed since the last boundary and not yet reported': by definition the value reset()
+    would return if it were called on decoder value `obj` in state `st` (representation-independent: which fields hold the count
+    in which state is the decoder's business).  Returns [(state extending st, Lin)]; the probe's obligations are discarded."""
+    ip = A.ip
+    s0 = st.copy()
+    root = ip.new_oid("pending-probe")
+    s0.mem[root] = obj
+    for k in list(s0.ghost):
+        if isinstance(k, str) and (k.startswith("c14-") or k.startswith("dec-")):
+            s0.ghost.pop(k, None)
+    mark = len(ip.log)
+    hooks = (ip.on_call, ip.on_call_result, ip.on_assign, ip.on_crc, ip.on_block)
+    saved = [list(h) for h in hooks]
+    for h in hooks:
+        del h[:]
+    try:
+        outs = A.run_fn(an.reset, st0=s0, first_arg=VRef(root, (), True))
+    finally:
+        for h, sv in zip(hooks, saved):
+            h[:] = sv
+        del ip.log[mark:]
+    res = []
+    for (s, rv, _args) in outs:
+        if not isinstance(rv, VInt):
+            raise Unsupported("reset() does not return an integer")
+        res.append((s, rv.lin))
+    if not res:
+        raise Unsupported("reset() has no outcome from this state")
+    return res
+
+
+def pending_holds(A, an, st, obj, pred):
+    """pred(state, pending) holds for every outcome of the observer"""
+    return all(pred(s, p) for s, p in pending_of(A, an, st, obj))
+
+
+def pending_lin(A, an, st, obj):
+    """the observer's value as one expression over st's symbols (it must not depend on a case split the state leaves open)"""
+    outs = pending_of(A, an, st, obj)
+    lins = {p for _s, p in outs}
+    if len(lins) != 1:
+        raise Unsupported("pending-byte observer (reset's return value) is not a single expression here: %r" % (sorted(map(repr, lins))[:4],))
+    return outs[0][1]
+
+
 def check_final_reset(ctx, A, F, an, rid):
     """finalize() and reset() report the same pending-byte count from every state: finalize returns
     Some(DiscardedBytes(n)) with n = the consumed-byte counter exactly when something is pending, None otherwise;
@@ -437,31 +495,51 @@ def check_final_reset(ctx, A, F, an, rid):
             if d and d[0] in ("trunc", "wrap", "shl_trunc"):
                 return True
         return False
+    # "pending" is observed through reset() itself (pending_of): what finalize reports must be that value, and the observer must
+    # be 0 for a new decoder and after reset / finalize (with R-C17-CONSERVE: + 1 per consumed byte, - what is reported)
+    def pend_str(st, obj):
+        try:
+            return ", ".join(s.describe(p) for s, p in pending_of(A, an, st, obj))
+        except Unsupported as e:
+            return "? (%s)" % e
     for c in cases(A, an.finalize):
-        raw0 = c["obj0"].elems[an.i_raw].lin
         for s2, var, pay in split_enum(ip, c["st"], c["ret"], "finalize"):
             ctx.count(rid)
             if var == 0:
-                ok = c["key"] == an.v_done or s2.prove_eq0(raw0)
-                msg = "finalize returns None although bytes may be pending (counter %s)" % s2.describe(raw0)
+                ok = pending_holds(A, an, s2, c["obj0"], lambda s, p: s.prove_eq0(p))
+                msg = "finalize returns None although bytes may be pending (reset would report %s)" % pend_str(s2, c["obj0"])
             else:
                 e = pay[0]
                 ev = s2.const_of(e.disc)
                 n = e.pay.get(ev, ())
-                ok = ev == an.err_variants.get("DiscardedBytes") and len(n) == 1 and s2.prove_eq0(n[0].lin - raw0) \
-                    and not lossy(s2, n[0].lin) and c["key"] != an.v_done and s2.prove_ge0(raw0 - 1)
-                msg = "finalize must report exactly the pending counter, and only when something is pending"
+                ok = ev == an.err_variants.get("DiscardedBytes") and len(n) == 1 and not lossy(s2, n[0].lin) and \
+                    pending_holds(A, an, s2, c["obj0"], lambda s, p: s.prove_eq0(n[0].lin - p) and s.prove_ge0(p - 1) and not lossy(s, p))
+                msg = "finalize must report exactly the pending count (what reset would report: %s), and only when something is pending" % pend_str(s2, c["obj0"])
             ctx.oblig(ok)
             if not ok:
                 ctx.violation(rid, "finalize|partition=%s|%s" % (c["key"], "None" if var == 0 else "Some"), where(an.finalize),
                               "finalize() from state #%s: %s" % (c["key"], msg))
+            ok = pending_holds(A, an, s2, c["obj"], lambda s, p: s.prove_eq0(p))
+            ctx.oblig(ok)
+            if not ok:
+                ctx.violation(rid, "finalize-post|partition=%s" % (c["key"],), where(an.finalize),
+                              "after finalize() from state #%s bytes are still pending (reset would report %s)" % (c["key"], pend_str(s2, c["obj"])))
     for c in cases(A, an.reset):
         ctx.count(rid)
-        raw0 = c["obj0"].elems[an.i_raw].lin
-        p0 = Lin.const(0) if c["key"] == an.v_done else raw0
-        ok = isinstance(c["ret"], VInt) and c["st"].prove_eq0(c["ret"].lin - p0) and not lossy(c["st"], c["ret"].lin)
+        ok = isinstance(c["ret"], VInt) and not lossy(c["st"], c["ret"].lin) and pending_holds(A, an, c["st"], c["obj"], lambda s, p: s.prove_eq0(p))
         ctx.oblig(ok)
         if not ok:
             ctx.violation(rid, "reset|partition=%s" % (c["key"],), where(an.reset),
-                          "reset() from state #%s must return exactly the pending counter (what finalize would report), got %s"
-                          % (c["key"], c["st"].describe(c["ret"].lin) if isinstance(c["ret"], VInt) else c["ret"]))
+                          "reset() from state #%s: its count must be exact (no truncating intermediate) and nothing may be pending afterwards "
+                          "(a second reset would report %s)" % (c["key"], pend_str(c["st"], c["obj"])))
+    # a new decoder has nothing pending
+    for cname in TYPESTATE[NOD]["ctors"]:
+        cb = F.bodies.get(cname)
+        if cb is None:
+            continue
+        for (s1, v, _a) in A.run_fn(cb):
+            ctx.count(rid)
+            ok = pending_holds(A, an, s1, v, lambda s, p: s.prove_eq0(p))
+            ctx.oblig(ok)
+            if not ok:
+                ctx.violation(rid, "new", where(cb), "a newly constructed decoder already has pending bytes (reset would report %s)" % pend_str(s1, v))
